@@ -798,6 +798,17 @@ impl<'s> Gen<'s> {
         };
         let shape = PIPES[r.below(8) as usize];
         let src = SRCS[r.below(4) as usize];
+        // the dependency serialises next() of iterator sources with a spin lock: tiny chunks on long inputs with many
+        // threads cost tens of seconds per run (a cost pathology, not part of the property)
+        let cs = if src.is_probe() && len > 2000 {
+            match cs {
+                Cs::Auto => Cs::Min(64),
+                Cs::Exact(x) => Cs::Exact(x.max(64)),
+                Cs::Min(x) => Cs::Min(x.max(64)),
+            }
+        } else {
+            cs
+        };
         let info = self.find(src, shape)?;
         let term = terms[r.below(16) as usize];
         Some(Case {
